@@ -124,10 +124,15 @@ def cases(tier, seed):
         for name in R.NLS_NAMES:
             for sparse in (False, True):
                 out.append({"kind": "lm", "problem": name, "sparse": sparse, "gradtol": rg.choice([1e-6, 1e-8, 1e-10]),
-                            "nu0": rg.choice([1e-3, 1e-1]), "scale": rg.choice([0.03, 1.0, 1.0, 20.0]), "rep": rep})
+                            "nu0": rg.choice([1e-3, 1e-1]),
+                            "scale": rg.choice([1e-8, 1e-6, 1e-4, 1e-3, 0.03, 1.0, 1.0, 1.0, 20.0, 1e3, 1e6, 1e8]), "rep": rep})
     for rep in range(1 if quick else 3):
         for name in R.NLS_NAMES:
             out.append({"kind": "lm", "problem": name, "sparse": bool(rep % 2), "gradtol": 1e-8, "nu0": 1e-3, "scale": 1.0, "warm": True, "rep": rep})
+    for rep in range(6 if quick else 20):
+        for name in R.NLS_NAMES:
+            out.append({"kind": "lm", "problem": name, "sparse": bool(rep % 2), "gradtol": rg.choice([1e-6, 1e-8]), "nu0": rg.choice([1e-3, 1e-3, 1e-1]),
+                        "scale": rg.choice([1e-3, 1.0, 1.0, 1.0, 1e3]), "far": True, "rep": rep})
     for sparse in (False, True):
         out.append({"kind": "lm_explicit", "sparse": sparse})
     # ---- scipy wrappers
@@ -456,7 +461,14 @@ def _run_fista(case, ctx):
         x = np.asarray(x, dtype=float)
         if x.shape != (n,) or not np.all(np.isfinite(x)):
             ctx.violation("solution_malformed", cfg, detail=f"shape {x.shape}"); return False
+        if kind != "l1":                           # feasibility is exact in the units the solver worked in
+            lo_chk = 0.0 if lo_s is None else lo_s
+            hi_chk = (np.inf if kind == "nonneg" else 1.0) if hi_s is None else hi_s
+            if np.any(x < lo_chk) or np.any(x > hi_chk):
+                ctx.violation("solution_infeasible", cfg, detail=f"returned point violates the constraint of {kind}"); return False
         x = x / xs_                                # back to the unscaled units
+        if kind != "l1" and scaled:
+            x = R.prox_ref(kind, x, lo=lo, hi=hi)  # removes the last-bit excursions caused by the unit conversion only
         tt = t_s * sa * sa
         if abs(tt - t) > 1e-9 * t:
             raise RuntimeError("harness: step size scaling inconsistent")
@@ -574,7 +586,8 @@ def _run_lm(case, ctx):
     pb0 = R.nls_problem(case["problem"], rs)
     c = float(case["scale"])
     pb = R.NLS(pb0.name, (lambda x: c * pb0.r(x)), (lambda x: c * pb0.J(x)), pb0.x0, pb0.n, pb0.m)
-    maxit = 3000
+    far = bool(case.get("far"))
+    maxit = 10000 if far else 3000
     gradtol = float(case["gradtol"])
     evals = []
     def rfun(x):
@@ -588,7 +601,31 @@ def _run_lm(case, ctx):
         ref = so.least_squares(pb.r, x0, jac=pb.J, method="trf", xtol=1e-15, ftol=1e-15, gtol=1e-15, max_nfev=5000)
         x0 = np.asarray(ref.x, dtype=float) + 1e-9 * rs.standard_normal(pb.n)
         cfg["start"] = "warm"
-    x, info = LM(rfun, x0.copy(), Jf, maxit=maxit, gradtol=gradtol, nu0=float(case["nu0"]), sparse=case["sparse"]).solve()
+    elif far:
+        # awkward start: every parameter 0.5 .. 2 decades away from a minimiser, in either direction
+        import scipy.optimize as so
+        ref = so.least_squares(pb.r, x0, jac=pb.J, method="trf", xtol=1e-15, ftol=1e-15, gtol=1e-15, max_nfev=5000)
+        xs_ = np.asarray(ref.x, dtype=float)
+        Jscale = float(np.linalg.norm(pb.J(xs_), 2))
+        for _try in range(30):
+            dec = rs.choice([-1.0, 1.0], size=pb.n) * rs.uniform(0.5, 2.0, pb.n)
+            base = np.where(np.abs(xs_) < 0.05, 0.05 * rs.choice([-1.0, 1.0], size=pb.n), xs_)
+            cand = base * 10.0 ** dec
+            with np.errstate(all="ignore"):
+                rc, Jc = pb.r(cand), pb.J(cand)
+                gc = _norm(Jc.T @ rc)
+            # well-posed start: finite, and not on a numerically flat plateau (gradient not lost to under/overflow)
+            if np.all(np.isfinite(rc)) and np.all(np.isfinite(Jc)) and gc >= 1e-6 * Jscale * _norm(rc) > 0:
+                x0 = cand
+                cfg["start"] = "far"
+                break
+    with np.errstate(all="ignore"):
+        kind_, val_ = core.outcome(lambda: LM(rfun, x0.copy(), Jf, maxit=maxit, gradtol=gradtol, nu0=float(case["nu0"]), sparse=case["sparse"]).solve())
+    if kind_ == "refused":
+        ctx.refused("LM (%s start)" % cfg.get("start", "near"), val_); ctx.count("lm_refused"); return
+    if kind_ == "crashed":
+        ctx.violation("crash", dict(cfg, exc=type(val_).__name__), detail=repr(val_)); return
+    x, info = val_
     x = np.asarray(x, dtype=float).ravel()
     nfev = int(info["nfev"])
     if x.shape != (pb.n,):
@@ -607,11 +644,40 @@ def _run_lm(case, ctx):
                       detail=f"{pb.name}: LM returned {x.tolist()} after {nfev} iterations (maxit {maxit}); the evaluated point with the smallest sum of squares has "
                              f"||J^T r||/||J0^T r0|| = {best:.3e}, gradtol = {gradtol}")
         return
-    if nfev >= maxit:
-        ctx.inconclusive(f"LM reached maxit on {pb.name}"); ctx.count("not_converged"); return
     J0, r0, J1, r1 = pb.J(x0), pb.r(x0), pb.J(x), pb.r(x)
     g0, g1 = _norm(J0.T @ r0), _norm(J1.T @ r1)
     bound = gradtol * g0 * (1 + 1e-6) + 1e3 * R.EPS * np.linalg.norm(J1, 2) * _norm(r1)
+    if nfev >= maxit:
+        # maxit on a 2..8-parameter well-posed fit.  Harmless if the iterate sits at the floating-point floor of the gradient
+        # (gradtol not attainable); otherwise LM failed where a reference solver (scipy, same start) succeeds -> reported.
+        nJ = max(float(np.linalg.norm(J1, 2)), float(np.linalg.norm(pb.J(pb.x0), 2)))
+        fp_tol = 1e-5 * nJ * _norm(r1) + 1e-10 * nJ * _norm(pb.r(pb.x0))
+        if g1 <= max(bound, fp_tol):
+            ctx.count("lm_maxit_at_fp_floor"); return
+        import scipy.optimize as so
+        with np.errstate(all="ignore"):
+            kr, ref = core.outcome(lambda: so.least_squares(pb.r, x0.copy(), jac=pb.J, method="lm", xtol=1e-12, ftol=1e-12, gtol=1e-12, max_nfev=20000),
+                                   refusal=Exception)
+        ref_ok = kr == "value" and ref.status > 0 and np.all(np.isfinite(ref.x)) and \
+            _norm(pb.J(ref.x).T @ pb.r(ref.x)) <= 1e-6 * g0
+        # stalled = the last 500 residual evaluations brought no improvement at all (e.g. the same rejected step retried for ever);
+        # merely slow progress along a flat valley is not judged unless the cause is LM's own absolute damping floor (below)
+        fs = [(_norm(pb.r(e)) if np.all(np.isfinite(e)) else np.inf) for e in evals]
+        stalled = len(fs) > 1000 and min(fs[-500:]) >= min(fs[:-500])
+        floor_dom_ = bool(float(case["nu0"]) > float(np.linalg.norm(J1, 2)) ** 2)
+        if ref_ok and not (stalled or floor_dom_):
+            ctx.count("lm_slow_but_progressing")
+            ctx.inconclusive(f"LM reached maxit on {pb.name}, still making progress"); ctx.count("not_converged"); return
+        if ref_ok:
+            ctx.count("lm_maxit_judged")
+            # LM's lower cut-off nu0 of the damping is an absolute number: does it dominate the Gauss-Newton matrix here?
+            floor_dom = bool(float(case["nu0"]) > float(np.linalg.norm(J1, 2)) ** 2)
+            ctx.violation("no_convergence", dict(cfg, reference_converges=True, damping_floor_dominates=floor_dom, stalled=bool(stalled)),
+                          detail=f"{pb.name} scale={c:g} start={x0.tolist()}: LM used all maxit={maxit} iterations and returned {x.tolist()} with "
+                                 f"||J^T r||/||J0^T r0|| = {g1/g0:.3e} (gradtol {gradtol}); scipy least_squares(method='lm') from the same start "
+                                 f"reaches {np.asarray(ref.x).tolist()} in {ref.nfev} evaluations")
+            return
+        ctx.inconclusive(f"LM reached maxit on {pb.name} (reference did not converge either)"); ctx.count("not_converged"); return
     ctx.count("lm_stationarity_checked")
     ctx.count("lm_stationarity_checked_" + ("sparse" if case["sparse"] else "dense"))
     ctx.note("lm ||J^T r||/||J0^T r0||, gradtol, nfev", [g1 / g0, gradtol, nfev])
@@ -622,7 +688,7 @@ def _run_lm(case, ctx):
         # on the problem scale: ||J^T r|| <= 1e-5 ||J|| ||r|| + 1e-10 ||J|| ||r(far start)||  (sqrt(eps)-level: a decrease of
         # ||g||^2 / (4||J||^2) below the rounding error of 1/2||r||^2 cannot be seen by any acceptance test).
         stagnated = len(evals) >= 200 and all(np.array_equal(e, x) for e in evals[-20:])
-        nJ = float(np.linalg.norm(J1, 2))
+        nJ = max(float(np.linalg.norm(J1, 2)), float(np.linalg.norm(pb.J(pb.x0), 2)))
         fp_tol = 1e-5 * nJ * _norm(r1) + 1e-10 * nJ * _norm(pb.r(pb.x0))
         if stagnated:
             _track(ctx, "max_lm_fp_floor_ratio", g1 / fp_tol)
